@@ -134,9 +134,11 @@ func domTyp(r *gen.Rng, n int, thorough bool, o *Out) {
 			// a related value: regenerate with the same key universe (shares many members)
 			v2 = c.gs.RootValue(cr.Fork(7), ref, 4, &optsR)
 		}
-		if cr.Chance(4) { // root-leaf pairs: empty / null on both sides
+		rootLeafPair := false
+		if cr.Chance(4) { // root-leaf pairs: empty / null on both sides (not necessarily conforming)
 			v1 = gen.Pick(cr, []interface{}{nil, map[string]interface{}{}, []interface{}{}})
 			v2 = gen.Pick(cr, []interface{}{nil, map[string]interface{}{}, []interface{}{}, gen.DeepCopy(v1)})
+			rootLeafPair = true
 		}
 		if dupL && dupR && cr.Chance(50) {
 			// duplicates on both sides with different multiplicities: v2 = v1 with one more copy of a member
@@ -147,6 +149,9 @@ func domTyp(r *gen.Rng, n int, thorough bool, o *Out) {
 			}
 		}
 		corrupt := cr.Chance(12)
+		if rootLeafPair {
+			corrupt = false
+		}
 		if corrupt {
 			v1 = sgen.Corrupt(cr, v1)
 			o.Tag("typ:corrupted")
@@ -164,6 +169,10 @@ func domTyp(r *gen.Rng, n int, thorough bool, o *Out) {
 				_, err := asTyped(c, v1, tr, dup)
 				if err != nil {
 					o.Tag("typ:validate=err")
+					if dup && !corrupt && !rootLeafPair {
+						// the generator only emits conforming values (its own reading of the schema documentation)
+						o.Fail("C13", "conforming-value-accepted", err.Error(), "conforming-value-accepted "+op, op)
+					}
 					return "err"
 				}
 				o.Tag("typ:validate=ok")
@@ -202,6 +211,13 @@ func domTyp(r *gen.Rng, n int, thorough bool, o *Out) {
 			}
 			same, cmpOK = cmp.IsSame(), true
 			judgeCompare(o, opC, a, b, cmp, dupL || dupR)
+			if !corrupt && !rootIsLeaf(c.gs, ref, v1, v2) {
+				n1, n2 := normalForm(c.gs, ref, v1), normalForm(c.gs, ref, v2)
+				if (n1 == n2) != cmp.IsSame() {
+					o.Fail("C11", "empty-iff-equal-up-to-member-order", fmt.Sprintf("IsSame=%v, normal forms equal=%v", cmp.IsSame(), n1 == n2),
+						"empty-iff-equal-up-to-member-order "+opC, opC)
+				}
+			}
 			if cr.Chance(30) {
 				disturb(c, cr)
 				if again, err := a.Compare(b); err != nil || cmpString(again) != cmpString(cmp) {
@@ -490,4 +506,146 @@ func isKeyFieldPath(p fieldpath.Path) bool {
 		}
 	}
 	return false
+}
+
+// normalForm: an independent canonical text of a value of type ref in which the members of sets and
+// keyed lists are sorted (so that two values have the same normal form exactly when they are equal up
+// to the order of set / associative-list members) and numerically equal numbers coincide.
+func normalForm(gs *sgen.Schema, ref sgen.Ref, v interface{}) string {
+	a := gs.Resolve(ref)
+	switch t := v.(type) {
+	case nil:
+		return "null"
+	case map[string]interface{}:
+		keys := make([]string, 0, len(t))
+		for k := range t {
+			keys = append(keys, k)
+		}
+		sortStrings(keys)
+		out := "{"
+		for _, k := range keys {
+			var ft sgen.Ref
+			atomic := a == nil || a.Map == nil || a.Map.Rel == "atomic"
+			if !atomic {
+				ft = fieldRef(a.Map, k)
+			}
+			if atomic {
+				out += fmt.Sprintf("%q:%s,", k, normalForm(gs, sgen.Ref{Inline: &sgen.Atom{Scalar: "untyped"}}, t[k]))
+			} else {
+				out += fmt.Sprintf("%q:%s,", k, normalForm(gs, ft, t[k]))
+			}
+		}
+		return out + "}"
+	case []interface{}:
+		if a == nil || a.List == nil || a.List.Rel != "associative" {
+			out := "["
+			for _, x := range t {
+				var et sgen.Ref
+				if a != nil && a.List != nil && a.List.Rel != "atomic" {
+					et = a.List.Elem
+				} else {
+					et = sgen.Ref{Inline: &sgen.Atom{Scalar: "untyped"}}
+				}
+				out += normalForm(gs, et, x) + ","
+			}
+			return out + "]"
+		}
+		items := make([]string, 0, len(t))
+		for _, x := range t {
+			items = append(items, normalForm(gs, a.List.Elem, x))
+		}
+		// sort by the member's identity first (key fields / scalar value), then by full text; members with
+		// the same identity (duplicates) keep their relative order: a duplicate group is compared as a list
+		type it struct{ id, text string; pos int }
+		var its []it
+		for i, x := range t {
+			id := ""
+			if len(a.List.Keys) > 0 {
+				if m, ok := x.(map[string]interface{}); ok {
+					ea := gs.Resolve(a.List.Elem)
+					for _, kf := range a.List.Keys {
+						kv, has := m[kf]
+						if !has && ea != nil && ea.Map != nil {
+							for _, f := range ea.Map.Fields {
+								if f.Name == kf {
+									kv = f.Default
+								}
+							}
+						}
+						id += kf + "=" + normalForm(gs, sgen.Ref{Inline: &sgen.Atom{Scalar: "untyped"}}, kv) + ";"
+					}
+				}
+			} else {
+				id = items[i]
+			}
+			its = append(its, it{id, items[i], i})
+		}
+		sortSlice(len(its), func(i, j int) bool {
+			if its[i].id != its[j].id {
+				return its[i].id < its[j].id
+			}
+			return its[i].pos < its[j].pos
+		}, func(i, j int) { its[i], its[j] = its[j], its[i] })
+		out := "<"
+		for _, x := range its {
+			out += x.text + ","
+		}
+		return out + ">"
+	case int64:
+		return fmt.Sprintf("n%v", float64(t))
+	case float64:
+		if t == 0 {
+			return "n0"
+		}
+		return fmt.Sprintf("n%v", t)
+	case string:
+		return fmt.Sprintf("%q", t)
+	case bool:
+		return fmt.Sprint(t)
+	}
+	return fmt.Sprintf("?%T", v)
+}
+
+func fieldRef(m *sgen.Map, name string) sgen.Ref {
+	for i := len(m.Fields) - 1; i >= 0; i-- {
+		if m.Fields[i].Name == name {
+			return m.Fields[i].Type
+		}
+	}
+	if m.Elem != nil {
+		return *m.Elem
+	}
+	return sgen.Ref{}
+}
+
+func sortStrings(s []string) { sortSlice(len(s), func(i, j int) bool { return s[i] < s[j] }, func(i, j int) { s[i], s[j] = s[j], s[i] }) }
+
+// sortSlice: insertion sort (stable), enough for the small member lists here
+func sortSlice(n int, less func(i, j int) bool, swap func(i, j int)) {
+	for i := 1; i < n; i++ {
+		for j := i; j > 0 && less(j, j-1); j-- {
+			swap(j, j-1)
+		}
+	}
+}
+
+// rootIsLeaf: a difference at the root itself cannot be reported (the empty path is never a member of
+// a field set), so the "empty exactly when equal" clause is only evaluated when both roots are
+// non-empty granular containers of the same kind.
+func rootIsLeaf(gs *sgen.Schema, ref sgen.Ref, v1, v2 interface{}) bool {
+	a := gs.Resolve(ref)
+	if a == nil {
+		return true
+	}
+	m1, ok1 := v1.(map[string]interface{})
+	m2, ok2 := v2.(map[string]interface{})
+	if ok1 && ok2 {
+		return len(m1) == 0 || len(m2) == 0 || a.Map == nil || a.Map.Rel == "atomic"
+	}
+	l1, ok1 := v1.([]interface{})
+	l2, ok2 := v2.([]interface{})
+	if ok1 && ok2 {
+		return len(l1) == 0 || len(l2) == 0 || a.List == nil || a.List.Rel == "atomic"
+	}
+	return true
 }
